@@ -8,7 +8,7 @@ from ..symstr import SymStr
 from ..sym import B, mkb
 
 PROPERTY = "C13"
-FILES = ["betterproto/compile/importing.py", "betterproto/compile/naming.py", "betterproto/casing.py"]
+FILES = ["betterproto/compile/importing.py", "betterproto/compile/naming.py", "betterproto/casing.py", "betterproto/plugin/parser.py"]
 
 TYPES = [("Msg", "Msg"), ("Outer.Inner", "OuterInner"), ("Kind", "Kind"), ("Outer.Kind", "OuterKind")]
 
@@ -179,8 +179,51 @@ def h_wellknown(env):
     check_reference(env, "wk-raw", current, ["betterproto", "lib", "google", "protobuf"], name, name, ref2, imports2)
 
 
+def type_ident(env, name, n):
+    """a proto type name that starts with an upper-case letter: [A-Z][A-Za-z0-9_]* of length n.  (compile/importing.py tells packages from
+    types by the first capital letter; the property quantifies over package paths and kinds of types, not over unconventional type names,
+    so a lower-case or underscore-initial message name is outside the claim)"""
+    from .c19 import ident
+
+    s = ident(env, name, n)
+    if env.sym:
+        env.assume(sym.mkb(z3.And(z3.UGE(s.items[0], 65), z3.ULE(s.items[0], 90))))
+    else:
+        env.assume("A" <= s[0] <= "Z")
+    return s
+
+
+def h_definition(env):
+    """the two code sites that have to agree: the name under which the plugin *defines* the class of a nested type (plugin/parser.traverse
+    flattens Outer.Inner, models.py pythonizes it) and the name by which a reference *denotes* it (compile/importing.get_type_reference);
+    type names symbolic, nesting depth 1..2, same package and from another package"""
+    from betterproto.compile import naming
+    from betterproto.lib.google.protobuf import DescriptorProto, EnumDescriptorProto, FileDescriptorProto
+    from betterproto.plugin import parser
+
+    outer = type_ident(env, "outer", 1 + env.choose("outer#len", env.params["len"]))
+    inner = type_ident(env, "inner", 1 + env.choose("inner#len", env.params["len"]))
+    leaf_is_enum = env.choose("leaf", 2)
+    leaf = EnumDescriptorProto(name=inner) if leaf_is_enum else DescriptorProto(name=inner)
+    top = DescriptorProto(name=outer, enum_type=[leaf]) if leaf_is_enum else DescriptorProto(name=outer, nested_type=[leaf])
+    f = FileDescriptorProto(name="x.proto", package="p.q", message_type=[top])
+    names = [item.name for item, _path in parser.traverse(f)]
+    env.check("definition:one-class-per-type", len(names) == 2)
+    defined_outer = naming.pythonize_class_name(names[0])
+    defined_inner = naming.pythonize_class_name(names[1])
+    env.observe("defined", [defined_outer, defined_inner])
+    for cur in (["p", "q"], ["p"]):
+        for tname, defined in ((outer, defined_outer), (outer + "." + inner, defined_inner)):
+            imports = set()
+            ref = reference(env, cur, ["p", "q"], tname, imports)
+            check_reference(env, "definition-vs-reference", cur, ["p", "q"], tname, defined, ref, imports)
+
+
 def units(tier):
     u = []
+    u.append(("definition-vs-reference[nested, names len<=2]", h_definition, {"len": 2}))
+    if tier == "thorough":
+        u.append(("definition-vs-reference[nested, names len<=3]", h_definition, {"len": 3}))
     u.append(("pair[depth<=2 len<=2]", h_pair, {"depth": 2, "len": 2}))
     u.append(("pair[depth<=3 len<=2]", h_pair, {"depth": 3, "len": 2}))
     u.append(("two-references[depth<=2 len=1]", h_two, {"depth": 2, "len": 1}))
@@ -197,8 +240,10 @@ UNIT_PATH_CAP = {"quick": 12000, "thorough": 300000}
 BOUNDS = {
     "quick": "ordered pairs of package paths of depth 0..2 with components [a-z][a-z0-9_]* of length 1..2 (every character symbolic, so ancestor / descendant / sibling / cousin / "
     "same / root shapes and name coincidences such as a.b_c vs a_b.c are solver-found), and of depth 0..3 (capped at 12000 paths); referenced type in {top-level message, "
-    "nested message, enum, nested enum}; two coexisting references from one module (depth <= 2, components of length 1..2); well-known types",
+    "nested message, enum, nested enum}; two coexisting references from one module (depth <= 2, components of length 1..2); well-known types; definition side "
+    "(plugin/parser.traverse + pythonize_class_name) against the reference side for nested messages / enums whose names are any [A-Z][A-Za-z0-9_]* of length 1..2",
     "thorough": "depth 0..3 with components of length 1..3; two references of depth 0..3; 300000 paths per unit",
 }
-OUTSIDE = ("claimed in part: only the reference / alias computation (compile/importing.py) is decided; the Jinja template's placement of imports_end, circular-import "
+OUTSIDE = ("claimed in part: the reference / alias computation (compile/importing.py) and the flattened class name of nested types (plugin/parser.traverse) are decided; type names that "
+           "do not start with a capital letter (importing.py then takes the enclosing message for a package: `.p.q.ab.Cd` is imported from package p.q.ab) are outside the quantifier; the Jinja template's placement of imports_end, circular-import "
            "tolerance, __init__.py creation and rpc input/output sites (which call the same function) are not decided symbolically")
